@@ -435,6 +435,45 @@ func (w *c21world) step(i int, op string) bool {
 		w.res.nontrivial = true
 		w.res.outcomes = append(w.res.outcomes, fmt.Sprintf("supply:ok:%d-unreadable", nerr))
 
+	case "transition-empty":
+		// An empty change list: nothing to report, but the call still counts as a
+		// transition on the endpoint (scan guard consumed, staging area finished),
+		// which only LATER calls reveal.
+		resl, probl, missl, el := w.L.ep.Transition(bg, nil)
+		resr, probr, missr, er := w.R.ep.Transition(bg, nil)
+		w.logf("op %d transition-empty: local (%d results, %d problems, missing=%v, err=%v) remote (%d results, %d problems, missing=%v, err=%v)", i, len(resl), len(probl), missl, el, len(resr), len(probr), missr, er)
+		if errClass(el) != errClass(er) {
+			w.fail(i, op, "local Transition([]) error=%v, remote Transition([]) error=%v", el, er)
+			return true
+		}
+		if el != nil {
+			w.res.outcomes = append(w.res.outcomes, "transition-empty:error")
+			return true
+		}
+		pls, prs := c21normProblems(w.L, probl), c21normProblems(w.R, probr)
+		if len(resl) != len(resr) || strings.Join(pls, "\x00") != strings.Join(prs, "\x00") || missl != missr {
+			w.fail(i, op, "local returned %d results, problems %v, missing=%v; remote %d results, problems %v, missing=%v", len(resl), pls, missl, len(resr), prs, missr)
+			return true
+		}
+		w.res.outcomes = append(w.res.outcomes, "transition-empty:ok")
+
+	case "stage-empty":
+		pl, gl, rl, el := w.L.ep.Stage(nil, nil)
+		pr, gr, rr, er := w.R.ep.Stage(nil, nil)
+		if errClass(el) != errClass(er) {
+			w.fail(i, op, "local Stage([]) error=%v, remote Stage([]) error=%v", el, er)
+			return true
+		}
+		if el != nil {
+			w.res.outcomes = append(w.res.outcomes, "stage-empty:error")
+			return true
+		}
+		if len(pl) != len(pr) || len(gl) != len(gr) || (rl == nil) != (rr == nil) {
+			w.fail(i, op, "local Stage([]) -> %v/%d signatures/receiver nil=%v, remote -> %v/%d/%v", pl, len(gl), rl == nil, pr, len(gr), rr == nil)
+			return true
+		}
+		w.res.outcomes = append(w.res.outcomes, "stage-empty:ok")
+
 	case "transition":
 		resl, probl, missl, el := w.L.ep.Transition(bg, w.plan)
 		resr, probr, missr, er := w.R.ep.Transition(bg, w.plan)
@@ -622,7 +661,7 @@ func TestC21(t *testing.T) {
 	// plan push it over, so scans fail with try-again and stage/transition hit the limit).
 	limits := []uint64{0, 6}
 	compressions := []string{"none", "deflate"}
-	r.Rule(fmt.Sprintf("two mirrored roots (files f1, sub/f2 and a 3-block file b), one local endpoint used directly and one behind remote client/server over an in-memory duplex stream; compression {none, deflate} x MaximumEntryCount {unlimited, 6} (quick: limit 6 with compression none only) x every sequence of exactly %d ops from {scan, full scan, edit1 (content of f1), edit2 (sub toggles + new file), stage (dependencies of a fixed 4-change plan, data supplied from the peer tree), stage-stale (peer tree changed: one file differs, one is gone), supply (4 paths incl. a block-matched and a missing one), transition (the plan), delete root, recreate root}; each op applied to both sides and all return values compared; a sequence stops at the first hard error (endpoint contract); shorter sequences are prefixes. Snapshot-history leg (no-watch, both compressions): every sequence of exactly %d ops from {scan, f1 rewritten in place with one of three same-size contents (one of them the initial content)} - up to that many scans through one client with the serialized snapshot length unchanged. Polling leg (one testing/synctest bubble per sequence, both endpoints force-poll 1 s + accelerated scans, compression deflate (thorough: both)): every sequence of exactly %d ops from {scan, full scan, edit1, edit2, tick (1.1 s of virtual time), stage, transition, poll (real Poll left pending, cancelled before the next endpoint call; compared: woken by an event or not)}. Non-trivial = at least one scan-after-something, stage, supply or transition returned successfully on both sides, or a Poll was woken by an event; distinct by the whole case", depth, map[bool]int{false: 6, true: 7}[vr.Thorough()], map[bool]int{false: 4, true: 5}[vr.Thorough()]))
+	r.Rule(fmt.Sprintf("two mirrored roots (files f1, sub/f2 and a 3-block file b), one local endpoint used directly and one behind remote client/server over an in-memory duplex stream; compression {none, deflate} x MaximumEntryCount {unlimited, 6} (quick: limit 6 with compression none only) x every sequence of exactly %d ops from {scan, full scan, edit1 (content of f1), edit2 (sub toggles + new file), stage (dependencies of a fixed 4-change plan, data supplied from the peer tree), stage-stale (peer tree changed: one file differs, one is gone), supply (4 paths incl. a block-matched and a missing one), transition (the plan), delete root, recreate root}; each op applied to both sides and all return values compared; a sequence stops at the first hard error (endpoint contract); shorter sequences are prefixes. Snapshot-history leg (no-watch, both compressions): every sequence of exactly %d ops from {scan, f1 rewritten in place with one of three same-size contents (one of them the initial content)} - up to that many scans through one client with the serialized snapshot length unchanged. Empty-call leg (no-watch, both compressions): every sequence of exactly %d ops from {scan, stage, transition, Stage with an empty path list, Transition with an empty change list} that contains an empty call. Polling leg (one testing/synctest bubble per sequence, both endpoints force-poll 1 s + accelerated scans, compression deflate (thorough: both)): every sequence of exactly %d ops from {scan, full scan, edit1, edit2, tick (1.1 s of virtual time), stage, transition, poll (real Poll left pending, cancelled before the next endpoint call; compared: woken by an event or not)}. Non-trivial = at least one scan-after-something, stage, supply or transition returned successfully on both sides, or a Poll was woken by an event; distinct by the whole case", depth, map[bool]int{false: 6, true: 7}[vr.Thorough()], map[bool]int{false: 5, true: 6}[vr.Thorough()], map[bool]int{false: 4, true: 5}[vr.Thorough()]))
 	r.Assume("native (inotify) watching is not used: the no-watch leg has no background scans, the polling leg owns time through the synctest bubble; within one quiescence step goroutine order is the Go scheduler's",
 		"cancellation in the middle of Scan/Transition is not enumerated (its outcome races with the operation itself on both sides); the completion-request path is exercised by every Scan/Transition (normal completion) and by cancelled Polls in the polling leg",
 		"error TEXT is compared only modulo the 'remote error: ' prefix and recorded, not demanded; error class and try-again are demanded",
@@ -754,6 +793,69 @@ func TestC21(t *testing.T) {
 	if len(infra) > 0 {
 		t.Fatalf("INFRA: %s", strings.Join(infra, "\n"))
 	}
+	// ---- empty-call leg: calls with empty lists have no visible result, only later effects ----
+	emptyDepth := 5
+	if vr.Thorough() {
+		emptyDepth = 6
+	}
+	emptyOps := []string{"scan", "stage", "transition", "stage-empty", "transition-empty"}
+	var emptySeqs [][]string
+	{
+		seq := make([]string, emptyDepth)
+		var rec func(pos int, has bool)
+		rec = func(pos int, has bool) {
+			if pos == emptyDepth {
+				if has { // sequences without an empty call belong to the main leg
+					emptySeqs = append(emptySeqs, append([]string(nil), seq...))
+				}
+				return
+			}
+			for _, o := range emptyOps {
+				seq[pos] = o
+				rec(pos+1, has || strings.HasSuffix(o, "-empty"))
+			}
+		}
+		rec(0, false)
+	}
+	r.Set("empty_call_leg_depth", emptyDepth)
+	r.Set("empty_call_leg_sequences", len(emptySeqs))
+	nchunksE := (len(emptySeqs) + histChunk - 1) / histChunk
+	vr.Parallel(nchunksE*len(compressions), func(i int) {
+		if time.Now().After(deadline) {
+			skipped.Add(1)
+			return
+		}
+		comp := compressions[i/nchunksE]
+		lo := (i % nchunksE) * histChunk
+		hi := min(lo+histChunk, len(emptySeqs))
+		l := r.Local()
+		defer l.Flush()
+		for _, seq := range emptySeqs[lo:hi] {
+			c := c21case{Compression: comp, Ops: seq}
+			res := c21run(e, good, stale, c, nil)
+			if res.infra != "" {
+				mu.Lock()
+				if len(infra) < 5 {
+					infra = append(infra, vr.J(c)+": "+res.infra)
+				}
+				mu.Unlock()
+				continue
+			}
+			l.Case(vr.J(c), res.nontrivial)
+			for _, o := range res.outcomes {
+				l.Outcome("empty-leg:" + o)
+			}
+			if res.viol != "" {
+				l.Outcome("violation")
+				cut := c
+				cut.Ops = append([]string(nil), c.Ops[:res.executed]...)
+				r.Violate(vr.J(cut), res.viol, cut, func() bool { return c21run(e, good, stale, cut, nil).viol != "" })
+			}
+		}
+	})
+	if len(infra) > 0 {
+		t.Fatalf("INFRA: %s", strings.Join(infra, "\n"))
+	}
 	// ---- polling leg: one synctest bubble per sequence ----
 	pollDepth := 4
 	pollCompressions := []string{"deflate"}
@@ -839,6 +941,7 @@ func TestC21(t *testing.T) {
 	r.Sample(c21case{Compression: "deflate", Ops: []string{"scan", "stage", "transition", "scan"}})
 	r.Sample(c21case{Compression: "none", Max: 6, Ops: []string{"scan", "edit2", "scan", "stage-stale"}})
 	r.Sample(c21case{Compression: "deflate", Ops: []string{"scan", "set1", "scan", "set0", "scan", "set2"}})
+	r.Sample(c21case{Compression: "none", Ops: []string{"scan", "stage", "transition-empty", "scan", "stage"}})
 	r.Sample(c21case{Mode: "poll", Compression: "deflate", Ops: []string{"scan", "edit1", "scan", "fullscan"}})
 	r.Sample(c21case{Mode: "poll", Compression: "deflate", Ops: []string{"poll", "edit2", "tick", "scan"}})
 }
